@@ -1,8 +1,10 @@
 (* props/C11.v -- property C11: Murphy scores match the elementary definition; murphy_thetas cover every kink.
    Only statements; every proof is `exact <lemma>` into coq/proofs.  Q-level statements are axiom-free; the
    integral over theta (is_RInt, Coquelicot) uses the standard Reals axioms (see Print Assumptions). *)
-From Coq Require Import Sorting.Sorted.
-From V Require Import lib.Tree gen.Gen_C11_kern model.C11 proofs.C11.
+From Coq Require Import Sorting.Sorted Reals Qreals.
+From Coquelicot Require Import Coquelicot.
+From V Require Import lib.Tree gen.Gen_C11_kern model.C11 proofs.C11 proofs.C10_RInt proofs.C11_RInt.
+Open Scope Q_scope.
 
 (* in_over f o t = (o <= t < f), in_under f o t = (f <= t < o); es_* = penalty sizes (model/C11.v);
    m_total / m_under / m_over = components of the regenerated merge pipeline, whose names are fixed by: *)
@@ -106,6 +108,29 @@ Theorem C11_thetas_left_limits : forall fcsts obs fn huber_a (d : Q) T (f : Q),
   In (XFin f) (concat fcsts) -> exists q, In (XFin q) T /\ q == f - d.
 Proof. exact thetas_left_limits. Qed.
 Print Assumptions C11_thetas_left_limits.
+
+(* =====================  integral over theta (Coquelicot is_RInt; standard Reals axioms)  ===================== *)
+(* esR_* : the elementary scores as real functions of theta (proofs/C10_RInt.v); at rational arguments they are the
+   specification values of the regenerated kernels: *)
+Theorem C11_elementary_score_real : forall alpha a f o t : Q,
+  Q2R (es_quantile alpha f o t) = esR_quantile (Q2R alpha) (Q2R f) (Q2R o) (Q2R t) /\
+  Q2R (es_expectile alpha f o t) = esR_expectile (Q2R alpha) (Q2R f) (Q2R o) (Q2R t) /\
+  Q2R (es_huber alpha a f o t) = esR_huber (Q2R alpha) (Q2R a) (Q2R f) (Q2R o) (Q2R t).
+Proof. intros. repeat split; [apply es_quantile_bridge | apply es_expectile_bridge | apply es_huber_bridge]. Qed.
+Print Assumptions C11_elementary_score_real.
+
+(* over any [lo, hi] containing fcst and obs the Murphy curve of one case integrates to the pinball loss (quantile), half the
+   asymmetric squared error (expectile), the asymmetric Huber loss |1{o<f} - alpha| * huber_a(f - o) (Huber) *)
+Theorem C11_murphy_integrates : forall alpha a f o lo hi : Q, 0 <= a -> lo <= f <= hi -> lo <= o <= hi ->
+  is_RInt (esR_quantile (Q2R alpha) (Q2R f) (Q2R o)) (Q2R lo) (Q2R hi)
+          (Q2R (if Qltb o f then (1 - alpha) * (f - o) else alpha * (o - f))) /\
+  is_RInt (esR_expectile (Q2R alpha) (Q2R f) (Q2R o)) (Q2R lo) (Q2R hi)
+          (Q2R ((if Qltb o f then 1 - alpha else alpha) * ((f - o) * (f - o)) / 2)) /\
+  is_RInt (esR_huber (Q2R alpha) (Q2R a) (Q2R f) (Q2R o)) (Q2R lo) (Q2R hi)
+          (Q2R ((if Qltb o f then 1 - alpha else alpha)
+                * (if Qle_bool (Qabs (f - o)) a then (1 # 2) * ((f - o) * (f - o)) else a * (Qabs (f - o) - (1 # 2) * a)))).
+Proof. exact murphy_integrates. Qed.
+Print Assumptions C11_murphy_integrates.
 
 (* non-vacuity *)
 Example C11_ex_thetas : rmap (map xred) (murphy_thetas_m [[XFin 1; XNaN; XFin 3]; [XFin 2]] [XFin 2; XFin (1#2)] "huber" (Some (XFin (1#2))) (Some (XFin (1#4))))
